@@ -291,6 +291,12 @@ def analysis_config(draw, N, schedulers=("ltf", "vectorized_ltf", "new_ltf", "lp
         "Jdes": draw(st.integers(5, Jmax)),
         "Kdes": draw(st.integers(1, Kmax)),
         "backend": draw(st.sampled_from(list(backends))),
+        # rarely varied call styles: verbose logging, order as a numpy integer, psll=None for non-Kaiser windows,
+        # the scheduler given as a callable (the library's own function or a thin user wrapper around it)
+        "verbose": draw(st.integers(0, 9)) == 9,
+        "np_order": draw(st.integers(0, 3)) == 3,
+        "psll_none": draw(st.integers(0, 3)) == 3,
+        "sched_as": draw(st.sampled_from(["name", "name", "name", "function", "wrapper"])),
     }
     if not (cfg["bmin"] < N / 2.0):
         cfg["bmin"] = 1.0
@@ -304,6 +310,23 @@ def make_analyzer(data, fs, cfg, **override):
     win, _ = resolve_window(c["win"])
     kw = dict(olap=c["olap"], bmin=c["bmin"], Lmin=c["Lmin"], Jdes=c["Jdes"], Kdes=c["Kdes"],
               order=c["order"], psll=c["psll"], win=win, scheduler=c["scheduler"], backend=c["backend"])
+    if c.get("np_order"):
+        kw["order"] = np.int64(c["order"])
+    if c.get("verbose"):
+        kw["verbose"] = True
+    if c.get("psll_none") and "kaiser" not in c["win"]:
+        kw["psll"] = None
+    if c.get("sched_as", "name") != "name" and isinstance(c["scheduler"], str):
+        from speckit import schedulers as _S
+        fn = {"lpsd": _S.lpsd_plan, "ltf": _S.ltf_plan, "vectorized_ltf": _S.vectorized_ltf_plan, "new_ltf": _S.new_ltf_plan}[c["scheduler"]]
+        if c["sched_as"] == "function" or c["scheduler"] == "lpsd":
+            # (a wrapper around lpsd would be a custom scheduler that ignores Lmin, which the analyzer rightly rejects)
+            kw["scheduler"] = fn
+        else:
+            def user_scheduler(**a):       # a user-supplied scheduler that delegates to the library's
+                a.pop("num_patch_pts", None)
+                return fn(**a)
+            kw["scheduler"] = user_scheduler
     for k in ("band", "force_target_nf"):
         if k in c:
             kw[k] = c[k]
